@@ -57,7 +57,7 @@ func init() {
 			"Every 5th case uses its first handle without an initial Load(): a prefix of 3-6 operations writes to the fresh tree, then issues LoadVersion on the store that still has no version (nothing is loaded, the working tree is kept), with or without a Rollback after it, and the planned history follows. distinct = hash(config, ops); non-trivial = >=1 rollback to a version that erased >=1 version, followed by >=1 further commit.",
 		Assumptions: []string{"M and R as in C01/C02", "the twin is built by replaying the recorded per-version write sets; raw-store equality with the twin is stronger than the property and only recorded"},
 		Run: func(c *fw.Ctx) {
-			w := map[string]int{"set": 34, "rm": 14, "save": 22, "rollback": 8, "reopen": 5, "load": 1, "delto": 4, "lfo": 9, "delfrom": 4}
+			w := map[string]int{"set": 34, "rm": 14, "save": 22, "rollback": 8, "reopen": 5, "load": 1, "delto": 4, "lfo": 9, "delfrom": 4, "redo": 3}
 			p := &v1x.GenParams{MinOps: 14, MaxOps: 55, W: w, MaxKeys: 8, InvalidPct: 4,
 				Backends: []string{"mem"}, Initials: []int64{0, 0, 0, 1, 6}, BigValues: true}
 			if c.Tier == "thorough" {
